@@ -189,6 +189,10 @@ def Shape.fromRadial (points : List α) : Option (Shape α) :=
       let angle := ((i : Nat) : α) * dtheta
       ⟨r1 * sin angle, r1 * cos angle, r2 * sin (angle + dtheta), r2 * cos (angle + dtheta)⟩))
 
+/-- the first `n` items of `l.iter().cycle().skip(k)` (an endless iterator unless `l` is empty) -/
+def cycleTake {β : Type} (l : List β) (k n : Nat) : List β :=
+  (List.range n).filterMap fun i => l[(i + k) % l.length]?
+
 /-- `LineShape::polygon` -/
 def Shape.polygon (sides : Nat) : Option (Shape α) := Shape.fromRadial (List.replicate sides (sc1 : α))
 
